@@ -434,12 +434,122 @@ Proof.
 Qed.
 
 (* ---------- members ---------- *)
-Lemma spec_field_proj T p v k mb : tok T ->
+Definition rec_bound (mb : member) : Prop := (count_rec (m_attrs mb) <= 1)%nat.
+
+Lemma spec_field_proj T p v k mb : tok T -> rec_bound mb ->
   proj_member T v (spec_field p T (v_full T) k mb)
   = if rt_honours_fields T && negb (interested (v_class v) FIELDS) then [] else [spec_field p T v k mb].
 Proof.
-  intros HT. unfold spec_field. cbn [proj_member v_full v_field].
+  intros HT Hb. unfold spec_field. cbn [proj_member v_full v_field].
   destruct (rt_honours_fields T && negb (interested (v_class v) FIELDS)); [reflexivity|].
   destruct (v_field v k) as [m|]; [|reflexivity]. cbn [option_map].
-  pose proof (attrs_R T p v (rt_field T) [] m None None (m_attrs mb) HT (tk_field T HT) (or_intror (conj eq_refl eq_refl))) as HR.
-Abort.
+  pose proof (attrs_R T p v (rt_field T) [] m None None (m_attrs mb) HT (tk_field T HT) (or_intror (conj eq_refl eq_refl)) Hb
+                l_init l_init (R_init _ _ _) (fun _ => eq_refl)) as HR.
+  rewrite (loop_events_R _ _ _ _ _ (proj_ev_like T v (rt_field T) m None) HR). reflexivity.
+Qed.
+
+Lemma spec_method_proj T p v k mb : tok T -> rec_bound mb ->
+  proj_member T v (spec_method p T (v_full T) k mb)
+  = if rt_honours_methods T && negb (interested (v_class v) METHODS) then [] else [spec_method p T v k mb].
+Proof.
+  intros HT Hb. unfold spec_method. cbn [proj_member v_full v_method v_code].
+  destruct (rt_honours_methods T && negb (interested (v_class v) METHODS)); [reflexivity|].
+  destruct (v_method v k) as [m|]; [|reflexivity]. cbn [option_map].
+  pose proof (attrs_R T p v (rt_method T) [] m (v_code v k) (Some (t_interests (rt_code T))) (m_attrs mb) HT (tk_method T HT) (or_introl eq_refl) Hb
+                l_init l_init (R_init _ _ _) (fun _ => eq_refl)) as HR.
+  rewrite (loop_events_R _ _ _ _ _ (proj_ev_like T v (rt_method T) m (v_code v k)) HR). reflexivity.
+Qed.
+
+Lemma spec_members_proj T v (skip : bool) (f ff : nat -> member -> ev) l :
+  (forall k mb, In mb l -> proj_member T v (ff k mb) = if skip then [] else [f k mb]) ->
+  forall k, spec_members skip f k l = flat_map (proj_member T v) (spec_members false ff k l).
+Proof.
+  induction l as [|mb l IH]; intros H k; [reflexivity|].
+  cbn [spec_members flat_map app]. rewrite (H k mb (or_introl eq_refl)).
+  rewrite (IH (fun k mb Hin => H k mb (or_intror Hin)) (S k)). reflexivity.
+Qed.
+
+(* ---------- Th 3: the class ---------- *)
+Theorem spec_projection T g c h v :
+  tables_ok T = true -> wf g T c h ->
+  spec_class T v h c = project T v (spec_class T (v_full T) h c).
+Proof.
+  intros HTb [Hhdr Hf Hm Hc Hgf Hgm Hgc]. pose proof (tables_ok_tok T HTb) as HT.
+  unfold spec_class, project. cbn [v_full v_accept_class v_class].
+  destruct (v_accept_class v); [|reflexivity]. cbn [option_map]. f_equal.
+  (* the full visitor skips no member *)
+  change (interested (t_interests (rt_class T)) FIELDS) with (mem FIELDS (t_interests (rt_class T))).
+  change (interested (t_interests (rt_class T)) METHODS) with (mem METHODS (t_interests (rt_class T))).
+  rewrite (tk_fields_in T HT), (tk_methods_in T HT). cbn [negb]. rewrite !andb_false_r.
+  rewrite !flat_map_app.
+  assert (Hcnt : (count_rec (c_attrs c) <= 1)%nat).
+  { unfold wf_attrs_b in Hc. apply andb_prop in Hc as [_ Hc]. apply PeanoNat.Nat.leb_le in Hc. exact Hc. }
+  f_equal; [|f_equal].
+  - (* class attributes *)
+    pose proof (attrs_R T (h_pool h) v (rt_class T) [FIELDS; METHODS] (v_class v) None None (c_attrs c) HT (tk_class T HT)
+                  (or_intror (conj eq_refl eq_refl)) Hcnt l_init l_init (R_init _ _ _) (fun _ => eq_refl)) as HR.
+    rewrite proj_member_attr.
+    + exact (loop_events_R _ _ _ _ _ (proj_ev_like T v (rt_class T) (v_class v) None) HR).
+    + apply loop_not_member. apply attrs_not_member. reflexivity.
+  - apply spec_members_proj. intros k mb Hin. apply spec_field_proj; [exact HT|].
+    pose proof (forallb_In _ _ _ Hf Hin) as Hw. unfold wf_member_b, wf_attrs_b in Hw.
+    apply andb_prop in Hw as [_ Hw]. apply PeanoNat.Nat.leb_le in Hw. exact Hw.
+  - apply spec_members_proj. intros k mb Hin. apply spec_method_proj; [exact HT|].
+    pose proof (forallb_In _ _ _ Hm Hin) as Hw. unfold wf_member_b, wf_attrs_b in Hw.
+    apply andb_prop in Hw as [_ Hw]. apply PeanoNat.Nat.leb_le in Hw. exact Hw.
+Qed.
+
+(* on the bytes: a partial / declining read delivers the projection of the full accepting read,
+   and both stop at the same place *)
+Theorem partial_is_projection T g c h :
+  tables_ok T = true -> wf g T c h ->
+  forall v rest,
+    exists t_full,
+      read_class g T (v_full T) (enc c ++ rest) = Ok (t_full, rest)
+      /\ read_class g T v (enc c ++ rest) = Ok (project T v t_full, rest).
+Proof.
+  intros HT Hwf v rest. exists (spec_class T (v_full T) h c). split.
+  - apply read_class_ok; assumption.
+  - rewrite <- (spec_projection T g c h v HT Hwf). apply read_class_ok; assumption.
+Qed.
+
+(* ---------- locality: what the projection does to an event depends only on the visitor's answers
+   for the item the event belongs to; declining (or masking) one member, record component or Code
+   leaves the events of all the others as they are ---------- *)
+Definition answers_at (v : visitor) (e : ev) : option mask * option mask :=
+  match e with
+  | EField k _ _ _ _ => (v_field v k, None)
+  | EMethod k _ _ _ _ => (v_method v k, v_code v k)
+  | ERc _ k _ _ _ => (v_rc v k, None)
+  | _ => (None, None)
+  end.
+
+Lemma proj_ev_ext T v1 v2 ct m kc e : (forall k, v_rc v1 k = v_rc v2 k) -> proj_ev T v1 ct m kc e = proj_ev T v2 ct m kc e.
+Proof. intros H. destruct e; cbn [proj_ev]; try reflexivity. rewrite H. reflexivity. Qed.
+
+Theorem projection_local T v1 v2 e :
+  v_class v1 = v_class v2 -> (forall k, v_rc v1 k = v_rc v2 k) ->
+  answers_at v1 e = answers_at v2 e ->
+  proj_member T v1 e = proj_member T v2 e.
+Proof.
+  intros Hc Hrc Ha. destruct e; cbn [proj_member answers_at] in *; rewrite <- ?Hc.
+  - apply proj_ev_ext; exact Hrc.
+  - apply proj_ev_ext; exact Hrc.
+  - apply proj_ev_ext; exact Hrc.
+  - apply proj_ev_ext; exact Hrc.
+  - apply proj_ev_ext; exact Hrc.
+  - apply proj_ev_ext; exact Hrc.
+  - injection Ha as Ha. rewrite Ha.
+    destruct (rt_honours_fields T && negb (interested (v_class v1) FIELDS)); [reflexivity|].
+    destruct (v_field v2 k); [|reflexivity]. destruct es; [|reflexivity]. cbn [option_map]. do 3 f_equal.
+    apply flat_map_ext_in'. intros x _. apply proj_ev_ext; exact Hrc.
+  - injection Ha as Ha1 Ha2. rewrite Ha1, Ha2.
+    destruct (rt_honours_methods T && negb (interested (v_class v1) METHODS)); [reflexivity|].
+    destruct (v_method v2 k); [|reflexivity]. destruct es; [|reflexivity]. cbn [option_map]. do 3 f_equal.
+    apply flat_map_ext_in'. intros x _. apply proj_ev_ext; exact Hrc.
+Qed.
+
+Theorem projection_local_rc T v1 v2 ct m kc attr k n d es :
+  v_rc v1 k = v_rc v2 k ->
+  proj_ev T v1 ct m kc (ERc attr k n d es) = proj_ev T v2 ct m kc (ERc attr k n d es).
+Proof. intros H. cbn [proj_ev]. rewrite H. reflexivity. Qed.
